@@ -40,11 +40,13 @@ Print Assumptions C20_bool_coercion.
 
 (* Model = specification, for every schema, every element target, every options message and every list of
    statements: the strict run ends in the options message protoc computes, or both reject.
-   Guard: every field of the schema has explicit presence (see the refutation below). *)
+   Guards (see the two refutations below): every field of the schema has explicit presence; no identifier in the
+   statements is a letter-case variant of inf / infinity / nan other than inf and nan (stmts_lexable also says that
+   integer literals are what the lexer produces: negative ones fit int64, the others uint64). *)
 Theorem C20_interpret_eq_protoc_partial : forall sch tt,
   schema_wf sch = true -> schema_explicit sch = true ->
   forall T m0 stmts, stmts_lexable stmts = true ->
-  same_outcome (interpret_strict sch tt T m0 stmts) (protoc_interpret sch tt T m0 stmts).
+  same_outcome (interpret_strict sch tt T m0 stmts) (protoc_interpret sch tt true T m0 stmts).
 Proof. exact interpret_eq_protoc_partial_lemma. Qed.
 Print Assumptions C20_interpret_eq_protoc_partial.
 
@@ -53,9 +55,18 @@ Print Assumptions C20_interpret_eq_protoc_partial.
 Theorem C20_interpret_eq_protoc_refuted :
   exists sch tt T stmts,
     schema_wf sch = true /\ stmts_lexable stmts = true /\
-    ~ same_outcome (interpret_strict sch tt T [] stmts) (protoc_interpret sch tt T [] stmts).
+    ~ same_outcome (interpret_strict sch tt T [] stmts) (protoc_interpret sch tt true T [] stmts).
 Proof. exact interpret_eq_protoc_refuted_lemma. Qed.
 Print Assumptions C20_interpret_eq_protoc_refuted.
+
+(* ... and inside message literals on the special float words: protoc reads inf, infinity and nan in any letter case
+   there, the code only inf and nan (and, after a minus sign, any case, because the parser lowers those). *)
+Theorem C20_interpret_eq_protoc_refuted_float_words :
+  exists sch tt T stmts,
+    schema_wf sch = true /\ schema_explicit sch = true /\
+    ~ same_outcome (interpret_strict sch tt T [] stmts) (protoc_interpret sch tt true T [] stmts).
+Proof. exact interpret_eq_protoc_refuted_words_lemma. Qed.
+Print Assumptions C20_interpret_eq_protoc_refuted_float_words.
 
 Theorem C20_no_uninterpreted_left_on_success : forall sch tt T m0 stmts m rem,
   interpret_strict sch tt T m0 stmts = Ok (m, rem) -> rem = [].
@@ -82,7 +93,7 @@ Definition nv_stmts : list stmt :=
 Example C20_nonvacuous :
   schema_wf nv_schema = true /\ schema_explicit nv_schema = true /\ stmts_lexable nv_stmts = true /\
   exists m, interpret_strict nv_schema 3%N 0%nat [] nv_stmts = Ok (m, []) /\
-            protoc_interpret nv_schema 3%N 0%nat [] nv_stmts = Ok m /\ m <> [].
+            protoc_interpret nv_schema 3%N true 0%nat [] nv_stmts = Ok m /\ m <> [].
 Proof.
   split; [reflexivity|]. split; [reflexivity|]. split; [reflexivity|].
   eexists. split; [vm_compute; reflexivity|]. split; [vm_compute; reflexivity|discriminate].
